@@ -209,6 +209,9 @@ class Type3Tag(nfc.tag.Tag):
             if attributes['nbr'] == 0:
                 log.debug("number of blocks for read is zero")
                 return None
+            if attributes['ln'] > self._capacity:
+                log.debug("ndef message length exceeds the data area")
+                return None
 
             last_block_number = 1 + (attributes['ln'] + 15) // 16
             data = bytearray()
